@@ -863,7 +863,7 @@ class PubKeyV4(PubKey):
     def __bytearray__(self):
         _bytes = bytearray()
         _bytes += super(PubKeyV4, self).__bytearray__()
-        _bytes += self.int_to_bytes(calendar.timegm(self.created.utctimetuple()), 4)
+        _bytes += self.int_to_fixed(calendar.timegm(self.created.utctimetuple()), 4)
         _bytes += self.int_to_bytes(self.pkalg)
         _bytes += self.keymaterial.__bytearray__()
         return _bytes
@@ -1233,7 +1233,7 @@ class LiteralData(Packet):
         filename = self.filename.encode('latin-1' if self._filename_fallback else 'utf-8')
         _bytes += bytearray([len(filename)])
         _bytes += filename
-        _bytes += self.int_to_bytes(calendar.timegm(self.mtime.utctimetuple()), 4)
+        _bytes += self.int_to_fixed(calendar.timegm(self.mtime.utctimetuple()), 4)
         _bytes += self._contents
         return _bytes
 
